@@ -7,7 +7,7 @@
    (wait tasks for a do handler, halt tasks for an undo handler) at the instant of the start. *)
 From Coq Require Import List NArith ZArith Bool.
 Import ListNotations.
-Require Import V.models.TaskEngine V.proofs.TaskEngineProofs.
+Require Import V.models.TaskEngine V.proofs.TaskEngineProofs V.proofs.TaskEngineReady V.proofs.TaskEngineDoing.
 
 (* Every handler start in every execution: the schedule gate was open (not before Task.atTime), and when the start
    is a fresh one (the Do->Doing or Undo->Undoing write) a do handler saw all its wait tasks Done and an undo handler
@@ -22,13 +22,25 @@ Theorem C02_fresh_start_requires_prereqs : forall (g : list tdesc) (es : list ev
 Proof. exact start_log_ok. Qed.
 Print Assumptions C02_fresh_start_requires_prereqs.
 
-(* PARTIAL with respect to re-runs. Full statement: EVERY handler start, fresh or not, saw its prerequisites
-   Done / ready. A task left in Doing / Undoing by Retry is started again without a status write and without
-   consulting mustWait. Not proved here: that a re-run do handler still sees all wait tasks Done (it needs the
-   invariant  Doing t -> every wait task of t is Done, which holds because an abort that moves a wait task
-   Done -> Undo also moves every task waiting on it Doing -> Abort; monitored on every observed re-run). For undo
-   re-runs the literal statement is FALSE of the faithful model when a halt task has no undo handler, see
-   C02_undo_rerun_refuted. *)
+(* Do side, EVERY start (fresh or re-run). A task left in Doing by Retry is started again without a status write and
+   without consulting mustWait; it still sees all its wait tasks Done, because in every reachable state a task in
+   Doing has all wait tasks Done: an abort that moves a wait task Done->Undo also moves every task waiting on it
+   Doing->Abort (worklist closure of abortTasks under halt edges). Over every non-empty graph and every event list in
+   which user aborts are issued on unready changes only (guarded: the REST API's rule, the property's quantifier).
+   The hypothesis  oof = false  says that no fuel bound of the MODEL (abort nesting depth, worklist length) was hit;
+   that these bounds suffice is not proved - a hit is reported by the correspondence as a mismatch. *)
+Theorem C02_rerun_do_sees_prereqs_done : forall (g : list tdesc) (es : list event),
+  g <> [] -> guarded (init_state g) es ->
+  let s := run_events (init_state g) es in
+  oof s = false ->
+  (forall t w, st s t = Doing -> In w (t_waits (get s t)) -> st s w = Done) /\
+  Forall (fun r : start_rec => sr_undo r = false -> forallb (fun x => seqb x Done) (sr_pre r) = true) (slog s).
+Proof. exact doing_prereqs_done. Qed.
+Print Assumptions C02_rerun_do_sees_prereqs_done.
+
+(* Undo side, re-runs: KNOWN FINDING undo-rerun-sees-handlerless-dependent-in-undo. The literal statement `every
+   start of an undo handler, fresh or not, saw all halt tasks ready` is FALSE of the faithful model when a halt task
+   has no undo handler (for fresh starts it is proved above): *)
 Theorem C02_undo_rerun_refuted : exists (g : list tdesc) (es : list event),
   oof (run_events (init_state g) es) = false /\ panicked (run_events (init_state g) es) = false /\
   exists r, In r (slog (run_events (init_state g) es)) /\ sr_undo r = true /\ forallb ready (sr_pre r) = false.
